@@ -370,3 +370,174 @@ class _BoolArith(Contract):
 for _n, _sp, _ar in (("__add__", lambda a, b: a + b, 2), ("__sub__", lambda a, b: a - b, 2), ("__rsub__", lambda a, b: b - a, 2),
                      ("__mul__", lambda a, b: imul(a, b), 2), ("__neg__", lambda a, b: -a, 1)):
     register(type("BoolArith" + _n.strip("_"), (_BoolArith,), dict(name="pysnark.boolean:LinCombBool." + _n, spec=staticmethod(_sp), arity=_ar)))
+
+
+# ---------------------------------------------------------------------------
+# operators LinCombBool declines (so that Python raises TypeError): a change that makes one of them answer must
+# answer with the plain-Python value of the expression on 0/1
+# ---------------------------------------------------------------------------
+from pyvc.sym import idivmod as _idivmod, shr as _shr
+
+
+class _BoolDeclined(Contract):
+    spec = None
+    vprops = ("C05",)
+    sprops = eprops = cprops = tprops = ()
+    raises_unspecified = True
+    guard_relevant = False
+    modules = ("pysnark.runtime", "pysnark.boolean")
+
+    def configs(self, tier):
+        return [dict(mode="plain", kind=k) for k in ("s", "k")]
+
+    def setup(self, c, cfg):
+        apply_mode(c, cfg["mode"], bitlength=4)
+        fn = getattr(c.LinCombBool, self.name.rsplit(".", 1)[1])
+        y = c.operand("y") if cfg["kind"] == "s" else c.public_int("k")
+        return fn, (c.operand_bool("x"), y), {}
+
+    def use_stub(self, c, *a):
+        return False
+
+    def post(self, c, r, x, y):
+        if r is NotImplemented:
+            return {"V.declined": True}
+        yv = c.v(y) if not isinstance(y, int) else term(y)
+        want = self.spec(c.v(x), yv)
+        if isinstance(r, tuple):
+            return {"V.value": And(*[Eq(c.v(a), w) for a, w in zip(r, want)]) if len(r) == len(want) else False}
+        if isinstance(want, tuple):
+            return {"V.value": False}
+        return {"V.value": Eq(c.v(r), want), "V.inv": c.inv(r)}
+
+
+for _n, _sp in (("__truediv__", lambda a, b: _idivmod(a, b)[0]), ("__floordiv__", lambda a, b: _idivmod(a, b)[0]),
+                ("__mod__", lambda a, b: _idivmod(a, b)[1]), ("__divmod__", lambda a, b: _idivmod(a, b)),
+                ("__rtruediv__", lambda a, b: _idivmod(b, a)[0])):
+    register(type("BoolDeclined" + _n.strip("_"), (_BoolDeclined,), dict(name="pysnark.boolean:LinCombBool." + _n, spec=staticmethod(_sp),
+                                                                        __doc__="LinCombBool.%s declines (TypeError at the operator)" % _n)))
+
+
+class _BoolDeclinedShift(_BoolDeclined):
+    def configs(self, tier):
+        return [dict(mode="plain", k=k) for k in (0, 1, 3)]
+
+    def setup(self, c, cfg):
+        apply_mode(c, cfg["mode"], bitlength=4)
+        fn = getattr(c.LinCombBool, self.name.rsplit(".", 1)[1])
+        return fn, (c.operand_bool("x"), cfg["k"]), {}
+
+
+register(type("BoolDeclinedlshift", (_BoolDeclinedShift,), dict(name="pysnark.boolean:LinCombBool.__lshift__", spec=staticmethod(lambda a, k: a * (1 << k.as_long())))))
+register(type("BoolDeclinedrshift", (_BoolDeclinedShift,), dict(name="pysnark.boolean:LinCombBool.__rshift__", spec=staticmethod(lambda a, k: _shr(a, k.as_long())))))
+
+
+@register
+class BoolPos(Contract):
+    """+b is b"""
+    name = "pysnark.boolean:LinCombBool.__pos__"
+    vprops = ("C05",)
+    sprops = eprops = cprops = tprops = ()
+    guard_relevant = False
+    modules = ("pysnark.runtime", "pysnark.boolean")
+
+    def configs(self, tier):
+        return [dict(mode="plain")]
+
+    def setup(self, c, cfg):
+        apply_mode(c, cfg["mode"])
+        return c.LinCombBool.__pos__, (c.operand_bool("x"),), {}
+
+    def use_stub(self, c, *a):
+        return False
+
+    def post(self, c, r, x):
+        return {"V.same": r is x}
+
+
+@register
+class BoolInt(Contract):
+    """int(b) is refused (a secret has no plain value)"""
+    name = "pysnark.boolean:LinCombBool.__int__"
+    vprops = ("C05",)
+    sprops = eprops = cprops = tprops = ()
+    guard_relevant = False
+    covers_normal = False
+    modules = ("pysnark.runtime", "pysnark.boolean")
+
+    def configs(self, tier):
+        return [dict(mode="plain", raises_only=True)]
+
+    def setup(self, c, cfg):
+        apply_mode(c, cfg["mode"])
+        return c.LinCombBool.__int__, (c.operand_bool("x"),), {}
+
+    def use_stub(self, c, *a):
+        return False
+
+    def raises(self, c, x):
+        return [(NotImplementedError, True)]
+
+    def post(self, c, r, x):
+        return {"V.never_returns": False}
+
+
+@register
+class BoolIfElse(Contract):
+    """b.if_else(t, f) = f + b*(t - f): the selected value; on the wires, exactly that affine selection"""
+    name = "pysnark.boolean:LinCombBool.if_else"
+    vprops = ("C05",)
+    sprops = ("C02",)
+    eprops = cprops = ()
+    tprops = ("C06",)
+    modules = ("pysnark.runtime", "pysnark.boolean")
+
+    def configs(self, tier):
+        return [dict(mode=m, kind=k) for m in ("plain", "g1", "g0") for k in ("ss", "sk", "ks")]
+
+    def setup(self, c, cfg):
+        apply_mode(c, cfg["mode"])
+        mk = lambda ch, nm: c.operand(nm) if ch == "s" else c.public_int(nm)
+        return c.LinCombBool.if_else, (c.operand_bool("b"), mk(cfg["kind"][0], "t"), mk(cfg["kind"][1], "f")), {}
+
+    def use_stub(self, c, *a):
+        return False
+
+    def post(self, c, r, b, t, f):
+        val = lambda o: term(o) if isinstance(o, int) else c.v(o)
+        adv = lambda o: term(o) % c.p if isinstance(o, int) else c.eva(o)
+        ok = hasattr(r, "lc")
+        d = {"V.type": ok}
+        if ok:
+            d["V.value"] = Eq(c.v(r), If(c.v(b) == 1, val(t), val(f)))
+            d["V.inv"] = c.inv(r)
+            d["S.select"] = Implies(And(on(c), is01(c.eva(b))), c.eva(r) == If(c.eva(b) == 1, adv(t), adv(f)))
+        return d
+
+
+@register
+class BoolVal(Contract):
+    """b.val(): the plain 0/1 value, one public output tied to the wire"""
+    name = "pysnark.boolean:LinCombBool.val"
+    vprops = ("C05",)
+    sprops = ("C02",)
+    eprops = cprops = ()
+    tprops = ("C06",)
+    modules = ("pysnark.runtime", "pysnark.boolean")
+
+    def configs(self, tier):
+        return [dict(mode=m) for m in ("plain", "g1")]
+
+    def setup(self, c, cfg):
+        apply_mode(c, cfg["mode"])
+        return c.LinCombBool.val, (c.operand_bool("b"),), {}
+
+    def use_stub(self, c, *a):
+        return False
+
+    def post(self, c, r, b):
+        pubs = [e.var for e in c.g.trace if hasattr(e, "var") and e.var.kind == "pub"]
+        d = {"V.value": isinstance(r, int) and formula(Eq(r, c.v(b))), "T.one_public_output": len(pubs) == 1}
+        if len(pubs) == 1:
+            d["S.tied"] = Implies(on(c), pubs[0].a == c.eva(b))
+        return d
